@@ -112,6 +112,15 @@ func (g *docGen) element(depth int, parentTag string) {
 	for _, ps := range []string{"before", "after"} {
 		if g.r.P(1, 6) {
 			fmt.Fprintf(&g.css, "#%s::%s { content: none }\n", id, ps)
+		} else if g.r.P(1, 8) { // a list-item pseudo-element: marker, implicit increment, own counter properties
+			d := g.counterDecls(4)
+			if d != "" {
+				d = "; " + d
+			}
+			fmt.Fprintf(&g.css, "#%s::%s { display: list-item%s }\n", id, ps, d)
+			fmt.Fprintf(&g.css, "#%s { list-style-type: %s }\n", id, rng.Pick(g.r, "decimal", "upper-roman", "lower-alpha", "decimal-leading-zero"))
+			g.decls++
+			plain = false
 		} else if d := g.counterDecls(1); d != "" {
 			fmt.Fprintf(&g.css, "#%s::%s { %s }\n", id, ps, d)
 			plain = false
@@ -205,6 +214,9 @@ func elemX(el *utils.HTMLNode, sf *tree.StyleFor, exp *[]expect) sx.X {
 		if ps.GetDisplay() == (pr.Display{"none"}) || c == "none" || c == "normal" || c == "inhibit" {
 			return sx.L()
 		}
+		if ps.GetDisplay().Has("list-item") { // a list-item pseudo-element has a marker of its own
+			*exp = append(*exp, expect{id, "marker", sf.Get(el, "marker")})
+		}
 		*exp = append(*exp, expect{id, p, ps})
 		return opsX(ps)
 	}
@@ -228,7 +240,11 @@ func elemX(el *utils.HTMLNode, sf *tree.StyleFor, exp *[]expect) sx.X {
 func collectText(b bo.Box, into map[[2]string]string) {
 	if tb, ok := b.(*bo.TextBox); ok && tb.Element != nil && tb.PseudoType != "" {
 		k := [2]string{(*utils.HTMLNode)(tb.Element).Get("id"), tb.PseudoType}
-		into[k] += tb.TextS()
+		if old, ok := into[k]; ok && tb.PseudoType == "marker" {
+			into[k] = old + "\x00" + tb.TextS() // own marker, then those of list-item ::before / ::after
+		} else {
+			into[k] += tb.TextS()
+		}
 	}
 	for _, c := range b.Box().Children {
 		collectText(c, into)
@@ -352,12 +368,21 @@ func checkDoc(m *mp.Model, src string, starts map[string]int, nontrivial bool, o
 				}
 				got, has := texts[[2]string{e.id, e.kind}]
 				want := expectedText(cs, e, os[j])
+				if e.kind == "marker" { // all markers of the element, in document order
+					var ws []string
+					for k2, e2 := range exp {
+						if e2.id == e.id && e2.kind == "marker" {
+							ws = append(ws, expectedText(cs, e2, os[k2]))
+						}
+					}
+					want = strings.Join(ws, "\x00")
+				}
 				if !has || got != want {
 					key := "values"
 					if which == 1 && len(setFirst) == len(exp) {
 						all := true
 						for k, e2 := range exp {
-							if texts[[2]string{e2.id, e2.kind}] != expectedText(cs, e2, setFirst[k]) {
+							if e2.kind != "marker" && texts[[2]string{e2.id, e2.kind}] != expectedText(cs, e2, setFirst[k]) {
 								all = false
 							}
 						}
